@@ -572,6 +572,151 @@ Section UnixExact.
   Qed.
 End UnixExact.
 
+(* ---- parse_list_line_windows on a well-formed `dir` line ---- *)
+Definition in_set (cs : list Z) (c : Z) : bool := existsb (Z.eqb c) cs.
+
+Lemma rstrip_chars_all cs s : forallb (in_set cs) s = true -> rstrip_chars cs s = [].
+Proof.
+  induction s as [|c s IH]; cbn; [reflexivity|]. intro H.
+  apply andb_true_iff in H as [Hc Hs]. rewrite (IH Hs). unfold in_set in Hc. rewrite Hc. reflexivity.
+Qed.
+
+Lemma rstrip_chars_app_in cs s t : forallb (in_set cs) t = true -> rstrip_chars cs (s ++ t) = rstrip_chars cs s.
+Proof.
+  intro Ht. induction s as [|c s IH]; cbn.
+  - apply rstrip_chars_all; exact Ht.
+  - rewrite IH. reflexivity.
+Qed.
+
+Lemma rstrip_chars_app_nonempty cs a b : rstrip_chars cs b = b -> b <> [] -> rstrip_chars cs (a ++ b) = a ++ b.
+Proof.
+  intros Hb Hn. induction a as [|c a IH]; [exact Hb|].
+  cbn [app rstrip_chars]. rewrite IH. destruct (a ++ b) eqn:E; [|reflexivity].
+  apply app_eq_nil in E as [_ E]. contradiction.
+Qed.
+
+Definition win_line (d tm : text) (ap : Z) (gap : nat) (col : text) (gap2 : nat) (name : text) : text :=
+  d ++ SP :: tm ++ SP :: [ap; 77] ++ repeat SP (S gap) ++ col ++ repeat SP (S gap2) ++ name.
+
+Lemma lstrip_spaces n s : headns s -> lstrip (repeat SP n ++ s) = s.
+Proof.
+  intro H. induction n as [|n IH]; cbn [repeat app]; [apply lstrip_headns; exact H|].
+  cbn [lstrip]. change (is_space SP) with (is_space 32); rewrite is_space_SP. exact IH.
+Qed.
+
+Lemma starts_with_app_false p : forall a x r,
+  starts_with p a = false -> no x p -> starts_with p (a ++ x :: r) = false.
+Proof.
+  induction p as [|y p IH]; intros a x r H Hx; [discriminate|].
+  apply no_cons in Hx as [Hy Hp].
+  destruct a as [|z a]; cbn [app starts_with] in *.
+  - apply Z.eqb_neq in Hy. rewrite Hy. reflexivity.
+  - destruct (y =? z); [|reflexivity]. cbn [andb] in *. apply IH; assumption.
+Qed.
+
+Section WindowsExact.
+  Variable dec : list Z -> option text.
+  Variable win_date : text -> result text.
+  Variables (d tm : text) (ap : Z) (gap gap2 : nat) (col name eol : text) (b : list Z).
+  Hypothesis Hdec : dec b = Some (win_line d tm ap gap col gap2 name ++ eol).
+  Hypothesis Heol : forallb (in_set [13; 10]) eol = true.
+  Hypothesis Hd : headns d /\ no SP d /\ no 77 d.
+  Hypothesis Htm : tm <> [] /\ no SP tm /\ no 77 tm.
+  Hypothesis Hap : ap <> 77 /\ ap <> SP.
+  Hypothesis Hcol : headns col /\ no SP col.
+  Hypothesis Hname : name <> [] /\ headns name /\ rstrip_chars [13; 10] name = name.
+
+  Lemma win_line_rstrip :
+    rstrip_chars [13; 10] (win_line d tm ap gap col gap2 name ++ eol) = win_line d tm ap gap col gap2 name.
+  Proof.
+    rewrite rstrip_chars_app_in by exact Heol. unfold win_line.
+    replace (d ++ SP :: tm ++ SP :: [ap; 77] ++ repeat SP (S gap) ++ col ++ repeat SP (S gap2) ++ name)
+      with ((d ++ SP :: tm ++ SP :: [ap; 77] ++ repeat SP (S gap) ++ col ++ repeat SP (S gap2)) ++ name).
+    2:{ repeat (rewrite <- app_assoc; cbn [app]). reflexivity. }
+    apply rstrip_chars_app_nonempty; tauto.
+  Qed.
+
+  Lemma win_prefix_exact :
+    win_prefix dec b = Ok (d ++ SP :: tm ++ SP :: [ap; 77], col ++ repeat SP (S gap2) ++ name).
+  Proof.
+    destruct Hd as [Hd1 [Hd2 Hd3]]. destruct Htm as [Ht1 [Ht2 Ht3]]. destruct Hap as [Ha1 Ha2].
+    destruct Hcol as [Hc1 Hc2].
+    unfold win_prefix. rewrite Hdec. cbn [of_opt bind]. rewrite win_line_rstrip. unfold win_line.
+    set (tail := repeat SP (S gap) ++ col ++ repeat SP (S gap2) ++ name).
+    assert (Hpre : no 77 (d ++ SP :: tm ++ SP :: [ap])).
+    { apply no_app. split; [exact Hd3|]. apply no_cons. split; [unfold SP; congruence|].
+      apply no_app. split; [exact Ht3|]. apply no_cons. split; [unfold SP; congruence|].
+      apply no_cons. split; [exact Ha1|apply no_nil]. }
+    replace (d ++ SP :: tm ++ SP :: [ap; 77] ++ tail) with ((d ++ SP :: tm ++ SP :: [ap]) ++ 77 :: tail)
+      by (repeat (rewrite <- app_assoc; cbn [app]); reflexivity).
+    rewrite index_of_app by exact Hpre. cbn [of_opt bind].
+    replace (S (length (d ++ SP :: tm ++ SP :: [ap]))) with (length ((d ++ SP :: tm ++ SP :: [ap]) ++ [77]))
+      by (rewrite app_length; cbn [length]; lia).
+    replace ((d ++ SP :: tm ++ SP :: [ap]) ++ 77 :: tail) with (((d ++ SP :: tm ++ SP :: [ap]) ++ [77]) ++ tail)
+      by (rewrite <- app_assoc; reflexivity).
+    rewrite firstn_len_app, skipn_len_app.
+    replace ((d ++ SP :: tm ++ SP :: [ap]) ++ [77]) with (d ++ SP :: tm ++ SP :: [ap; 77])
+      by (repeat (rewrite <- app_assoc; cbn [app]); reflexivity).
+    unfold tail. rewrite lstrip_spaces by (apply headns_app; exact Hc1).
+    (* strip: the last character is M, the first is the head of d *)
+    assert (Hs : strip (d ++ SP :: tm ++ SP :: [ap; 77]) = d ++ SP :: tm ++ SP :: [ap; 77]).
+    { unfold strip.
+      replace (d ++ SP :: tm ++ SP :: [ap; 77]) with ((d ++ SP :: tm ++ SP :: [ap]) ++ [77])
+        by (repeat (rewrite <- app_assoc; cbn [app]); reflexivity).
+      rewrite rstrip_app_nonempty by (try discriminate; vm_compute; reflexivity).
+      apply lstrip_headns. rewrite <- app_assoc. apply headns_app. exact Hd1. }
+    rewrite Hs.
+    (* split on SP: exactly the three tokens *)
+    rewrite split_on_app by exact Hd2. rewrite split_on_app by exact Ht2.
+    rewrite split_on_plain by (apply no_cons; split; [exact Ha2|apply no_cons; split; [unfold SP; congruence|apply no_nil]]).
+    destruct d as [|d0 d']; [contradiction|]. destruct tm as [|t0 t']; [contradiction|].
+    cbn [filter is_nil negb join flat_map app].
+    reflexivity.
+  Qed.
+
+  Hypothesis Hnodot : is_dot_name name = false.
+
+  (* <DIR> entries *)
+  Theorem windows_dir_exact :
+    col = DIRTAG ->
+    parse_list_line_windows dec win_date b
+    = bind (win_date (d ++ SP :: tm ++ SP :: [ap; 77]))
+           (fun modify => Ok (posix_norm name, [(k_modify, modify); (k_type, t_dir)])).
+  Proof.
+    intro Hc. destruct Hname as [Hn1 [Hn2 Hn3]].
+    unfold parse_list_line_windows. rewrite win_prefix_exact. cbn [bind].
+    destruct (win_date (d ++ SP :: tm ++ SP :: [ap; 77])) as [modify|e]; [|reflexivity]. cbn [bind].
+    subst col. cbn [repeat app].
+    replace (index_of SP (DIRTAG ++ SP :: repeat SP gap2 ++ name)) with (Some (length DIRTAG))
+      by (symmetry; apply index_of_app; vm_compute; reflexivity).
+    cbn [of_opt bind].
+    replace (starts_with DIRTAG (DIRTAG ++ SP :: repeat SP gap2 ++ name)) with true by reflexivity.
+    cbn [bind]. rewrite skipn_len_app.
+    change (SP :: repeat SP gap2 ++ name) with (repeat SP (S gap2) ++ name).
+    rewrite lstrip_spaces by exact Hn2. rewrite Hnodot. reflexivity.
+  Qed.
+
+  (* files: the size column is ASCII digits with optional thousands separators *)
+  Theorem windows_file_exact :
+    starts_with DIRTAG col = false -> remove_char 44 col <> [] ->
+    forallb is_ascii_digit (remove_char 44 col) = true ->
+    parse_list_line_windows dec win_date b
+    = bind (win_date (d ++ SP :: tm ++ SP :: [ap; 77]))
+           (fun modify => Ok (posix_norm name, [(k_modify, modify); (k_type, t_file); (k_size, remove_char 44 col)])).
+  Proof.
+    intros Hnd Hs1 Hs2. destruct Hname as [Hn1 [Hn2 Hn3]]. destruct Hcol as [Hc1 Hc2].
+    unfold parse_list_line_windows. rewrite win_prefix_exact. cbn [bind].
+    destruct (win_date (d ++ SP :: tm ++ SP :: [ap; 77])) as [modify|e]; [|reflexivity]. cbn [bind].
+    cbn [repeat app]. rewrite index_of_app by exact Hc2. cbn [of_opt bind].
+    assert (Hsw : starts_with DIRTAG (col ++ SP :: repeat SP gap2 ++ name) = false).
+    { apply starts_with_app_false; [exact Hnd|vm_compute; reflexivity]. }
+    rewrite Hsw. rewrite firstn_len_app. rewrite all_ascii_digit_isdigit by assumption.
+    cbn [guard bind]. rewrite skipn_len_app.
+    change (SP :: repeat SP gap2 ++ name) with (repeat SP (S gap2) ++ name).
+    rewrite lstrip_spaces by exact Hn2. rewrite Hnodot. reflexivity.
+  Qed.
+End WindowsExact.
+
 (* ================= non-vacuity: every set of hypotheses above is satisfiable ================= *)
 (* type=file;Size=12; a.txt CRLF   -> a.txt {type: file, size: 12} *)
 Example mlsx_exact_example :
@@ -652,3 +797,24 @@ Example endless_server_example :
                (fun _ => (false, [mlsd_line [116; 121; 112; 101; 61; 100; 105; 114; 59; 32; 100; 13; 10]])) n)))
   = S n.
 Proof. intros n H. do 4 (destruct n as [|n]; [vm_compute; reflexivity|]). lia. Qed.
+
+(* 10/27/2016 06:02 PM    <DIR>          sub dir CRLF *)
+Example windows_dir_exact_example :
+  parse_list_line_windows utf8 (fun _ => Ok [50; 48])
+    (win_line [49; 48; 47; 50; 55; 47; 50; 48; 49; 54] [48; 54; 58; 48; 50] 80 3 DIRTAG 9
+              [115; 117; 98; 32; 100; 105; 114] ++ [13; 10])
+  = Ok ([115; 117; 98; 32; 100; 105; 114], [(k_modify, [50; 48]); (k_type, t_dir)]).
+Proof.
+  rewrite (windows_dir_exact utf8 (fun _ => Ok [50; 48]) [49; 48; 47; 50; 55; 47; 50; 48; 49; 54]
+             [48; 54; 58; 48; 50] 80 3 9 DIRTAG [115; 117; 98; 32; 100; 105; 114] [13; 10]).
+  - reflexivity.
+  - reflexivity.
+  - reflexivity.
+  - split; [vm_compute; reflexivity|split; reflexivity].
+  - split; [discriminate|split; reflexivity].
+  - split; discriminate.
+  - split; [vm_compute; reflexivity|reflexivity].
+  - split; [discriminate|split; vm_compute; reflexivity].
+  - reflexivity.
+  - reflexivity.
+Qed.
